@@ -5,30 +5,52 @@
    Transl.tr_block computes exactly this inside the guard; Proofs/SimP.v proves the
    simulation for it.  (Definitions only.) *)
 From Coq Require Import ZArith List Bool.
-From RV Require Import Base.Wire Base.Text Lang.StmtAst Lang.Transl Lang.StmtGuard.
+From RV Require Import Base.Wire Base.Text Lang.StmtAst Lang.Transl Lang.StmtSem Lang.StmtGuard.
 Import ListNotations.
 Open Scope Z_scope.
 
-(* one statement, nested or not declaring anything *)
-Fixpoint tr1 (p : pstmt) : list cnode :=
-  let fix go (l : list pstmt) : list cnode := match l with [] => [] | x :: r => tr1 x ++ go r end in
+(* the temporaries counter (ctx["tmp_counter"]) after a statement: a tuple assignment through
+   temporaries takes one per right-hand side; while/for bodies hand their counter back; the branches of an
+   `if` all start from the counter before it and their counters are dropped (Transl.tr_block) *)
+Fixpoint knext (k : Z) (p : pstmt) : Z :=
+  let fix go (k : Z) (l : list pstmt) : Z := match l with [] => k | x :: r => go (knext k x) r end in
+  match p with
+  | PTuple _ es => k + Z.of_nat (length es)
+  | PWhile _ b | PFor _ _ b => go k b
+  | _ => k
+  end.
+Fixpoint klist (k : Z) (l : list pstmt) : Z := match l with [] => k | x :: r => klist (knext k x) r end.
+
+(* `x_i = __tmp_assign_(k+i);` in order *)
+Fixpoint tup_asgs (xs : list ident) (k : Z) : list cnode :=
+  match xs with [] => [] | x :: r => NAssign x (XTmp k) :: tup_asgs r (k + 1) end.
+
+(* one statement, nested or not declaring anything.  [ret] = the statement is at the level of
+   the main loop (inside `while True:` and inside no for/while loop): there a `continue` ends the
+   pass, i.e. it is `return;` in loop(); loop bodies reset the flag.  [k] = the temporaries counter.
+   A tuple assignment here assigns declared names: temporaries, then assignments *)
+Fixpoint tr1 (ret : bool) (k : Z) (p : pstmt) : list cnode :=
+  let fix go (rt : bool) (k : Z) (l : list pstmt) : list cnode :=
+    match l with [] => [] | x :: r => tr1 rt k x ++ go rt (knext k x) r end in
   let fix gob (l : list (ann * list pstmt)) : list (Z * list cnode) :=
-    match l with [] => [] | (c, b) :: r => (a_id c, go b) :: gob r end in
+    match l with [] => [] | (c, b) :: r => (a_id c, go ret k b) :: gob r end in
   match p with
   | PAssign x e => [NAssign x (XE (a_id e))]
   | PAug x op e _ => [NAssign x (XAug x op (a_id e))]
-  | PTuple _ _ => []
-  | PIf c b el e => [NIf ((a_id c, go b) :: gob el) (go e)]
-  | PWhile c b => [NWhile (a_id c) (go b)]
-  | PFor x c b => [NFor x (a_id c) (go b)]
+  | PTuple xs es => tuple_tmps es k ++ tup_asgs xs k
+  | PIf c b el e => [NIf ((a_id c, go ret k b) :: gob el) (go ret k e)]
+  | PWhile c b => [NWhile (a_id c) (go false k b)]
+  | PFor x c b => [NFor x (a_id c) (go false k b)]
   | PBreak => [NBreak]
+  | PContinue => if ret then [NReturn] else [NContinue]
   | PWrite e => [NWrite (a_id e)]
   | PSleep e => [NSleep (a_id e)]
   | PExprS e => if closed_const e then [] else [NExprS (a_id e)]
   end.
-Fixpoint trn (l : list pstmt) : list cnode := match l with [] => [] | x :: r => tr1 x ++ trn r end.
-Fixpoint trnb (l : list (ann * list pstmt)) : list (Z * list cnode) :=
-  match l with [] => [] | (c, b) :: r => (a_id c, trn b) :: trnb r end.
+Fixpoint trn (ret : bool) (k : Z) (l : list pstmt) : list cnode :=
+  match l with [] => [] | x :: r => tr1 ret k x ++ trn ret (knext k x) r end.
+Fixpoint trnb (ret : bool) (k : Z) (l : list (ann * list pstmt)) : list (Z * list cnode) :=
+  match l with [] => [] | (c, b) :: r => (a_id c, trn ret k b) :: trnb ret k r end.
 
 (* top level of setup: a first assignment declares a global ([D] = names declared so far) *)
 (* tuple declaration of new globals: per element what a first top-level assignment does *)
@@ -46,42 +68,46 @@ Fixpoint tup_globals (xs : list ident) (es : list ann) : list gdecl :=
   | _, _ => []
   end.
 
-Fixpoint trt (D : list ident) (ps : list pstmt) : list cnode * list gdecl :=
+Fixpoint trt (ret : bool) (k : Z) (D : list ident) (ps : list pstmt) : list cnode * list gdecl :=
   match ps with
   | [] => ([], [])
   | p :: r =>
       match p with
       | PAssign x e =>
-          if tmem x D then (tr1 p ++ fst (trt D r), snd (trt D r))
+          if tmem x D then (tr1 ret k p ++ fst (trt ret k D r), snd (trt ret k D r))
           else if closed_const e
-               then (fst (trt (D ++ [x]) r),
-                     {| g_name := x; g_ty := a_ty e; g_init := XE (a_id e) |} :: snd (trt (D ++ [x]) r))
-               else (NAssign x (XE (a_id e)) :: fst (trt (D ++ [x]) r),
-                     {| g_name := x; g_ty := a_ty e; g_init := XDefault (a_ty e) |} :: snd (trt (D ++ [x]) r))
+               then (fst (trt ret k (D ++ [x]) r),
+                     {| g_name := x; g_ty := a_ty e; g_init := XE (a_id e) |} :: snd (trt ret k (D ++ [x]) r))
+               else (NAssign x (XE (a_id e)) :: fst (trt ret k (D ++ [x]) r),
+                     {| g_name := x; g_ty := a_ty e; g_init := XDefault (a_ty e) |} :: snd (trt ret k (D ++ [x]) r))
       | PTuple xs es =>
           if Nat.eqb (length xs) (length es) && forallb (fun x => negb (tmem x D)) xs && nodupb xs
-          then (tup_nodes xs es ++ fst (trt (D ++ xs) r), tup_globals xs es ++ snd (trt (D ++ xs) r))
-          else (fst (trt D r), snd (trt D r))
-      | _ => (tr1 p ++ fst (trt D r), snd (trt D r))
+          then (tup_nodes xs es ++ fst (trt ret k (D ++ xs) r), tup_globals xs es ++ snd (trt ret k (D ++ xs) r))
+          else (tr1 ret k p ++ fst (trt ret (knext k p) D r), snd (trt ret (knext k p) D r))
+      | _ => (tr1 ret k p ++ fst (trt ret (knext k p) D r), snd (trt ret (knext k p) D r))
       end
   end.
 
 (* body level of `while True:` (loop()): a first assignment declares a local, in place *)
-Fixpoint trl (D : list ident) (ps : list pstmt) : list cnode :=
+Fixpoint trl (ret : bool) (k : Z) (D : list ident) (ps : list pstmt) : list cnode :=
   match ps with
   | [] => []
   | p :: r =>
       match p with
       | PAssign x e =>
-          if tmem x D then tr1 p ++ trl D r
-          else NDecl x (a_ty e) (XE (a_id e)) false :: trl (D ++ [x]) r
-      | _ => tr1 p ++ trl D r
+          if tmem x D then tr1 ret k p ++ trl ret k D r
+          else NDecl x (a_ty e) (XE (a_id e)) false :: trl ret k (D ++ [x]) r
+      | _ => tr1 ret k p ++ trl ret (knext k p) D r
       end
   end.
 
 (* [top] = the statement list may declare; [lm] = it is the main-loop body (declarations are locals) *)
-Definition trm (top lm : bool) (D : tenv) (ps : list pstmt) : list cnode * list gdecl :=
-  if top then (if lm then (trl (map fst D) ps, []) else trt (map fst D) ps) else (trn ps, []).
+Definition trm (ret : bool) (k : Z) (top lm : bool) (D : tenv) (ps : list pstmt) : list cnode * list gdecl :=
+  if top then (if lm then (trl ret k (map fst D) ps, []) else trt ret k (map fst D) ps) else (trn ret k ps, []).
+
+(* the C outcome that corresponds to a Python outcome: a `continue` at the level of the main loop is `return;` *)
+Definition oc (ret : bool) (o : outcome) : outcome :=
+  match o with OContinue => if ret then OReturn else OContinue | _ => o end.
 
 (* names whose C binding a statement may update (loop variables live in their own binding) *)
 Fixpoint wr (p : pstmt) : list ident :=
@@ -108,7 +134,7 @@ Definition g_step (f : nat) (top : bool) (D : tenv) (L : list ident) (p : pstmt)
       if negb (fv_ok D L e) || tmem x L then None
       else match tlookup x D with
            | Some t => if ty_eqb t (a_ty e) then Some D else None
-           | None => if top then Some (D ++ [(x, a_ty e)]) else None
+           | None => if top && negb (is_tmp x) then Some (D ++ [(x, a_ty e)]) else None
            end
   | PAug x op e t_after =>
       if negb (fv_ok D L e) || tmem x L then None
@@ -116,8 +142,10 @@ Definition g_step (f : nat) (top : bool) (D : tenv) (L : list ident) (p : pstmt)
            | Some t => if ty_eqb t t_after then Some D else None
            | None => None
            end
-  | PTuple xs es => if top && tuple_decl_ok D L xs es then Some (D ++ combine xs (map a_ty es)) else None
-  | PBreak => Some D
+  | PTuple xs es =>
+      if tuple_asg_ok D L xs es then Some D
+      else if top && tuple_decl_ok D L xs es then Some (D ++ combine xs (map a_ty es)) else None
+  | PBreak | PContinue => Some D
   | PWrite e | PSleep e | PExprS e => if fv_ok D L e then Some D else None
   | PIf c body elifs els =>
       if fv_ok D L c && nested L body
@@ -127,7 +155,7 @@ Definition g_step (f : nat) (top : bool) (D : tenv) (L : list ident) (p : pstmt)
   | PWhile c body => if fv_ok D L c && nested L body then Some D else None
   | PFor x cnt body =>
       if fv_ok D L cnt && ty_eqb (a_ty cnt) TyInt
-         && negb (tmem x (map fst D)) && negb (tmem x L)
+         && negb (tmem x (map fst D)) && negb (tmem x L) && negb (is_tmp x)
          && negb (tmem x (a_fv cnt))
          && disjoint (a_fv cnt) (assigned_in body)
          && negb (tmem x (assigned_in body))
@@ -135,7 +163,8 @@ Definition g_step (f : nat) (top : bool) (D : tenv) (L : list ident) (p : pstmt)
       then Some D else None
   end.
 
-(* `break` placement accepted by the parser: inside a for/while loop, and not directly at the
+(* `break` / `continue` placement accepted by the parser: `continue` inside any loop (the main loop
+   included); `break` inside a for/while loop, and not directly at the
    level of the main loop ([ml] = inside `while True:`, [ld] = loop depth as counted by the parser) *)
 Fixpoint brk_ok (ml : bool) (ld : nat) (p : pstmt) : bool :=
   let fix go (d : nat) (l : list pstmt) : bool :=
@@ -144,6 +173,7 @@ Fixpoint brk_ok (ml : bool) (ld : nat) (p : pstmt) : bool :=
     match l with [] => true | (_, b) :: r => go d b && gob d r end in
   match p with
   | PBreak => match ld with O => false | S O => negb ml | _ => true end
+  | PContinue => match ld with O => false | _ => true end
   | PIf _ b el e => go ld b && gob ld el && go ld e
   | PWhile _ b | PFor _ _ b => go (S ld) b
   | _ => true
